@@ -60,6 +60,13 @@ def jobs_for(check, mirror, rb, crate, U, jobs, tier, KNOWN_PRED):
         vals = {"input_decisions": empty(), "input_decision_results_evaluators": VecV(z3.IntVal(0), (), "Evaluator"), "input_data_references": empty(),
                 "encapsulated_decisions": VecV(ne.e, [StrV(None, id=z3.IntVal(400))], "String"), "output_decisions": VecV(n.e, ids, "String"), "output_variable_type": Opaque("FeelType", "declared"),
                 "output_variable_name": Opaque("Name", z3.IntVal(900))}
+        from checks.C13 import closure_capture_types
+        ctypes = closure_capture_types(crate, "build_decision_service_evaluator")
+        for c_ in caps:
+            # a capture this obligation does not know: a flag or a count the builder computed - whatever it computed, the closure must not panic and
+            # must deliver what the property says, so it is an arbitrary value of its type (a counterexample through it is confirmed natively)
+            if c_ not in vals and ctypes.get(c_) in ("bool", "usize"):
+                vals[c_] = mk_bool(z3.Bool(ex.fresh_name("capture_" + c_))) if ctypes[c_] == "bool" else ex.fresh_int(st, "usize", "capture_" + c_)
         if sorted(caps) != sorted(vals):
             raise MirUnsupported("the decision service closure captures %s, the obligation knows %s" % (caps, sorted(vals)))
         env = Ref(ex.new_cell(st, Adt("closure", "build_decision_service_evaluator", [vals[c] for c in caps]), "env"))
